@@ -221,7 +221,7 @@ def _line_handling():
                  "if self._lax:\n                        size_b = size_b.strip()",
                  "if not re.fullmatch(HEXDIGITS, size_b):",
                  "size = int(bytes(size_b), 16)",
-                 "if self._lax and chunk.startswith(b'\\r'):\n                            chunk = chunk[1:]",
+                 "if size == 0:\n    self._chunk = ChunkState.PARSE_TRAILERS\nelse:\n    self._chunk = ChunkState.PARSE_CHUNKED_CHUNK",
                  "if self._lax and chunk.startswith(b'\\r'):\n                    chunk = chunk[1:]\n                if chunk[:len(SEP)] == SEP:",
                  "elif len(chunk) >= len(SEP) or chunk != SEP[:len(chunk)]:",
                  "if SEP == b'\\n':\n                    line = line.rstrip(b'\\r')\n                if len(line) > self._max_field_size:",
@@ -230,8 +230,9 @@ def _line_handling():
                  "if len(self._chunk_tail) > max_line_length:"):
         if _flat(want) not in pp:
             raise TranslatorError(f"HttpPayloadParser.feed_data: expected code missing: {want}")
-    if pp.count("chunk.startswith(b'\\r')") != 2:
-        raise TranslatorError("HttpPayloadParser.feed_data: the optional CR is expected to be skipped in exactly two places")
+    if pp.count("chunk.startswith(b'\\r')") != 1:
+        raise TranslatorError("HttpPayloadParser.feed_data: the optional CR is expected to be skipped in exactly one place "
+                              "(after chunk data; nothing is skipped after the last-chunk line)")
     init = _flat(ast.unparse(core.find_function(P, "__init__", cls="HttpPayloadParser")))
     for want in ("if not response_with_body:\n    self._type = ParseState.PARSE_NONE\n    real_payload.feed_eof()\n    self.done = True",
                  "elif chunked:\n    self._type = ParseState.PARSE_CHUNKED",
@@ -272,6 +273,6 @@ def generate() -> str:
     _lax_mode()
     _line_handling()
     out.append("(* lax = not DEBUG; SEP = LF; lines are rstrip(CR)'ed; chunk sizes are strip()'ed; the optional CR after\n"
-               "   chunk data and after the last-chunk line is skipped; _is_chunked_te by rsplit: shapes checked *)\n"
+               "   chunk data is skipped, nothing after the last-chunk line; _is_chunked_te by rsplit: shapes checked *)\n"
                "Definition lax_shapes_checked : bool := true.\n")
     return "\n".join(out)
